@@ -59,8 +59,28 @@ class Interp:
         self.file_stack = []
         self.entry_heap = None
         self.allowed_writes = None
+        self._ntags, self._indexed, self._keep = {}, set(), []
 
     # ------------------------------------------------------------------ util
+    def ntag(self, node):
+        """Stable tag of an AST node: '#<ordinal among nodes of its type in the enclosing function>'
+        (not a line number, so harmless edits do not rename obligations)."""
+        if node is None or not hasattr(node, "lineno"):
+            return "#?"
+        t = self._ntags.get(id(node))
+        return t if t is not None else f"#L{node.lineno}"
+
+    def index_function(self, fd):
+        if id(fd) in self._indexed:
+            return
+        self._indexed.add(id(fd))
+        counts = {}
+        self._keep.append(fd)
+        for n in ast.walk(fd):
+            k = type(n).__name__
+            counts[k] = counts.get(k, 0) + 1
+            self._ntags[id(n)] = f"#{counts[k] - 1}"
+
     def oblige(self, st, name, goal, kind="safety", meta=None):
         if isinstance(goal, bool):
             if goal:
@@ -68,7 +88,8 @@ class Interp:
             goal = z3.BoolVal(False)
         tag = "/".join(st.tags[-6:])
         nm = f"{self.prefix}/{name}" + (f"[{tag}]" if tag else "")
-        self.sink.append(Obligation(nm, self.axioms + st.pc, goal, kind, dict(meta or {}, defs=list(st.defs))))
+        names = [None] * len(self.axioms) + (st.pcn + [None] * (len(st.pc) - len(st.pcn)))
+        self.sink.append(Obligation(nm, self.axioms + st.pc, goal, kind, dict(meta or {}, defs=list(st.defs), hyp_names=names)))
 
     def feasible(self, st, cond=None):
         if not self.prune:
